@@ -125,7 +125,13 @@ func OrcaRand(a Args) {
 				kl = n
 			}
 		}
-		w = reworld(w, sizesFor(a.Sizes, kl))
+		sz := sizesFor(a.Sizes, kl)
+		if a.Sizes == "chunk" && tr%3 == 1 {
+			// items of many chunks (beyond 64 and 128 of them): per-chunk work done in groups shows here
+			p := sz[2]
+			sz = []int{65*p + 1, 1, p, 130 * p}
+		}
+		w = reworld(w, sz)
 		s := &session{st: st, w: w, cl: map[string]*wire.Client{}, text: text, keys: keys}
 		// the in-memory backend is a process-wide singleton that cannot be emptied: fresh keys per trace
 		must(st.Load(w, stack.MMap{}, stack.MMap{}, 0, keys))
